@@ -20,6 +20,7 @@ THEOREMS = [
     'PbBss.C13.phaseCorrection_fixLead',
     'PbBss.C13.cumprod_axis0_not_per_index',
     'PbBss.C13.stableSolve_regular_isolated',
+    'PbBss.C13.stableSolve_neighbours_irrelevant',
     'PbBss.C13.stableSolve_all_regular',
     'PbBss.C13.stableSolve_singular_lstsq',
 ]
@@ -301,6 +302,8 @@ def stacked_equals_slices(fn, arrays, kwargs, regular):
         try:
             singles[idx] = np.asarray(_call(fn, a, kwargs))[0]
         except (np.linalg.LinAlgError, ValueError, AssertionError, IndexError, ZeroDivisionError) as e:
+            if regular is None:
+                raise            # regular inputs: every individual problem must have a result
             return Skip(f'individual problem is rejected ({type(e).__name__})')
     copies = {k: v.copy() for k, v in arrays.items()}
     try:
@@ -573,7 +576,7 @@ def search(ctx):
     t, n = gen_psd_pair(rng, (6,), 3)
     ctx.run(bf_vector_is_composition, name='pca+mvdr', target=t, noise=n, kwargs={})
     # (1) every accepted name, with and without '+ban', explicit / estimated reference channels, 0..2 extra axes
-    reps = ctx.n(3, 40)
+    reps = ctx.n(6, 60)
     for rep in range(reps):
         for nextra in (0, 1, 2):
             extra = tuple(int(rng.integers(1, 4)) for _ in range(nextra))
@@ -589,7 +592,7 @@ def search(ctx):
                     ctx.sample({'oracle': 'bf_vector_is_composition', 'name': name, 'kwargs': kw, 'shape': list(t.shape),
                                 'held': ok})
     # (2) stacked vs individual problems, every beamforming function, different content per index
-    n_cases = ctx.n(260, 5000)
+    n_cases = ctx.n(900, 12000)
     for i in range(n_cases):
         if ctx.out_of_time(reserve=45):
             break
@@ -603,7 +606,7 @@ def search(ctx):
             ctx.sample({'oracle': 'stacked_equals_slices', 'fn': fn, 'kwargs': kw,
                         'shapes': {k: list(v.shape) for k, v in arrays.items()}, 'held': ok})
     # (3) apply_beamforming_vector = w^H x per leading index; phase alignment predicate
-    for i in range(ctx.n(120, 2500)):
+    for i in range(ctx.n(500, 6000)):
         if ctx.out_of_time(reserve=35):
             break
         extra, F, D = gen_shape(rng, ctx.tier, small=(i % 3 != 0))
@@ -620,7 +623,7 @@ def search(ctx):
         if i == 0:
             ctx.sample({'oracle': 'phase_correction_aligns', 'shape': list(v.shape), 'kind': kind, 'held': ok})
     # (4) singular / zero PSD matrices: finiteness and isolation of the regular bins
-    for i in range(ctx.n(300, 6000)):
+    for i in range(ctx.n(900, 12000)):
         if ctx.out_of_time(reserve=15):
             break
         extra, F, D = gen_shape(rng, ctx.tier, small=(i % 2 == 0))
@@ -680,7 +683,7 @@ def _names_for_dispatch(rng, n_random):
         names.append('+'.join(toks[int(rng.integers(len(toks)))] for _ in range(k)))
     seen, out = set(), []
     for nm in names:
-        if nm not in seen and all(32 <= ord(c) < 127 for c in nm) and ' ' not in nm:
+        if nm not in seen and all(32 <= ord(c) < 127 for c in nm):
             seen.add(nm)
             out.append(nm)
     return out
@@ -745,6 +748,14 @@ def corr(ctx):
         shape = ' '.join(str(s) for s in v.shape)
         lines.append(f'phasefull {v.ndim} {shape} {cbits(v)}')
         metas.append(('phase_correction-full', np.asarray(bfm.phase_correction(v)), {'vector': v}))
+        if i % 5 == 0:
+            # the model of the PRE-FIX source line (cumprod(..., axis=0), refuted by theorem cumprod_axis0_not_per_index)
+            # against that line written out here: ties the negative theorem to the defect that was fixed in e74d97d
+            old = np.array(v, copy=True)
+            old[..., 1:, :] *= np.cumprod(np.exp(1j * np.angle(np.sum(
+                old[..., 1:, :].conj() * old[..., :-1, :], axis=-1, keepdims=True))), axis=0)
+            lines.append(f'phaseaxis0 {v.ndim} {shape} {cbits(v)}')
+            metas.append(('phase_correction-axis0-model-vs-prefix-line', old, {'vector': v}))
         ctx.count(f'corr-phase:{kind}')
     out = run_driver(lines, exe='driver_psd')
     for (op, want, data), o in zip(metas, out):
@@ -764,7 +775,7 @@ def corr(ctx):
                  f'{ {k: v.shape for k, v in data.items()} }', data)
     # (3) stable_solve: decision tree over the outcomes of the real solve / lstsq calls
     lines, metas = [], []
-    for i in range(ctx.n(120, 2500)):
+    for i in range(ctx.n(500, 6000)):
         nlead = int(rng.integers(0, 3))
         lead = tuple(int(rng.integers(1, 4)) for _ in range(nlead))
         D = int(rng.integers(1, 5))
